@@ -64,6 +64,17 @@ package main
 // an input the step accepts, next to calls with the exact ID; v3 and v1. A step ID is an exact key:
 // in-process CallStep answers "Invalid step called", so Execute must return an error too.
 //
+// The `await` stream (every run): steps that return only when a signal has been delivered to them.
+// Step "await" waits for the signal its handler map holds under the KEY "go-key" (the stored signal
+// schema's ID is "go": key and ID differ, the hello message announces the key, the client addresses
+// the key). Step "hand" takes exactly one signal from a handler ("hand") that hands it over on an
+// unbuffered channel and blocks until it is taken: histories send the hand-over twice, or once more
+// after the step has ended, and then go on with further Executes (serial and a burst). The signals
+// are sent a few milliseconds after the Execute began, i.e. after its work-start. Every Execute must
+// return its in-process result (the reference plugin does not wait) within the watchdog: a signal
+// that is not delivered, or a blocked signal handler that parks the server's read loop, shows as
+// Executes that never return.
+//
 // A finding carries the whole session (plugin, calls with inputs, rounds, delays, transport, seed) as
 // its detail; `harness atpsession -replay <finding or session json>` re-runs that session.
 //
@@ -146,6 +157,13 @@ func (p *atpxChunkPipe) Read(b []byte) (int, error) {
 		p.mu.Unlock()
 		time.Sleep(time.Duration(50+p.r.Intn(300)) * time.Microsecond)
 		p.mu.Lock()
+		// another reader (the drain after Close) may have taken the bytes meanwhile
+		for len(p.buf) == 0 && !p.closed {
+			p.cond.Wait()
+		}
+		if len(p.buf) == 0 {
+			return 0, io.EOF
+		}
 	}
 	max := len(p.buf)
 	if len(b) < max {
@@ -372,6 +390,13 @@ type atpxCall struct {
 	Signal bool `json:"queued_signal,omitempty"`
 	// overlaps another call with the same run ID: the client may refuse it
 	MayBeRefused bool `json:"may_be_refused,omitempty"`
+	// signals put into the call's signalsToStep channel after the Execute began
+	Late []atpxLateSignal `json:"late_signals,omitempty"`
+}
+
+type atpxLateSignal struct {
+	ID      string `json:"id"`
+	DelayUs int    `json:"delay_us"`
 }
 
 // atpxSpec is one session, complete enough to be re-run.
@@ -386,6 +411,7 @@ type atpxSpec struct {
 	V1        bool        `json:"v1"`
 	Seed      int64       `json:"seed"`
 	Bulk      bool        `json:"bulk_plugin,omitempty"` // the fixed bulk plugin instead of Plugin
+	release   chan struct{} // closed when the client has been closed: ends every wait inside the plugin
 	// how the server's returned errors relate to the failing steps: "" exact, "atleast", "skip"
 	CountMode string `json:"count_mode,omitempty"`
 	// the Execute's error must contain the text of the in-process error
@@ -397,7 +423,7 @@ type atpxSpec struct {
 
 func (sp *atpxSpec) build() *schema.CallableSchema {
 	if sp.Stream == "bulk" || sp.Bulk || sp.Plugin == nil {
-		return atpxBulkPlugin(true)
+		return atpxBulkPlugin(true, sp.release)
 	}
 	return sp.Plugin.build()
 }
@@ -405,7 +431,7 @@ func (sp *atpxSpec) build() *schema.CallableSchema {
 // buildRef is the plugin for the in-process reference: the same, but slow steps do not sleep.
 func (sp *atpxSpec) buildRef() *schema.CallableSchema {
 	if sp.Stream == "bulk" || sp.Bulk || sp.Plugin == nil {
-		return atpxBulkPlugin(false)
+		return atpxBulkPlugin(false, nil)
 	}
 	return sp.Plugin.build()
 }
@@ -421,10 +447,10 @@ func atpxBlob(uid string, size int) string {
 	return b.String()[:size]
 }
 
-// atpxBulkPlugin: step "opt" (input with only optional / defaulted properties: `{}` is accepted, nil is
+// atpxBulkPlugin: steps "await" and "hand" (return only after a signal has been delivered), step "opt" (input with only optional / defaulted properties: `{}` is accepted, nil is
 // not), step "bulk" (large outputs), step "slow" (stays in flight for `ms` milliseconds
 // when sleep is set), step "sbulk" (like bulk, declares the signal "sig" and ignores it).
-func atpxBulkPlugin(sleep bool) *schema.CallableSchema {
+func atpxBulkPlugin(sleep bool, release <-chan struct{}) *schema.CallableSchema {
 	in := func() *schema.ScopeSchema {
 		return schema.NewScopeSchema(schema.NewObjectSchema("BulkInput", map[string]*schema.PropertySchema{
 			"uid":  atpsProp(schema.NewStringSchema(nil, nil, nil), true),
@@ -478,7 +504,81 @@ func atpxBulkPlugin(sleep bool) *schema.CallableSchema {
 		word, _ := m["word"].(string)
 		return "success", map[string]any{"tag": word, "blob": atpxBlob(word, 16)}
 	}
+	// steps that wait for a signal (only when sleep is set: the reference does not wait)
+	var wmu sync.Mutex
+	gates := map[string]chan struct{}{}    // uid -> closed by the "go-key" handler
+	handoffs := map[string]chan struct{}{} // uid -> unbuffered hand-over
+	gate := func(uid string) chan struct{} {
+		wmu.Lock()
+		defer wmu.Unlock()
+		g, ok := gates[uid]
+		if !ok {
+			g = make(chan struct{})
+			gates[uid] = g
+		}
+		return g
+	}
+	handoff := func(uid string) chan struct{} {
+		wmu.Lock()
+		defer wmu.Unlock()
+		h, ok := handoffs[uid]
+		if !ok {
+			h = make(chan struct{})
+			handoffs[uid] = h
+		}
+		return h
+	}
+	uidOf := func(x any) string {
+		m, _ := x.(map[string]any)
+		u, _ := m["uid"].(string)
+		return u
+	}
+	sigData := func() *schema.ScopeSchema {
+		return schema.NewScopeSchema(schema.NewObjectSchema("WaitSignal", map[string]*schema.PropertySchema{
+			"uid": atpsProp(schema.NewStringSchema(nil, nil, nil), true),
+		}))
+	}
+	awaitStep := schema.NewCallableStepWithSignals[any, any]("await", in(), outputs(),
+		map[string]schema.CallableSignal{
+			// registered under a key that is not the signal's ID
+			"go-key": schema.NewCallableSignalFromSchema[any, any](schema.NewSignalSchema("go", sigData(), nil), func(_ context.Context, _ any, d any) {
+				g := gate(uidOf(d))
+				wmu.Lock()
+				select {
+				case <-g:
+				default:
+					close(g)
+				}
+				wmu.Unlock()
+			}),
+		}, nil, nil, nil, func(ctx context.Context, _ any, input any) (string, any) {
+			if sleep {
+				select {
+				case <-gate(uidOf(input)):
+				case <-release:
+				}
+			}
+			return handler(ctx, input)
+		})
+	handStep := schema.NewCallableStepWithSignals[any, any]("hand", in(), outputs(),
+		map[string]schema.CallableSignal{
+			"hand": schema.NewCallableSignal[any, any]("hand", sigData(), nil, func(_ context.Context, _ any, d any) {
+				select {
+				case handoff(uidOf(d)) <- struct{}{}:
+				case <-release:
+				}
+			}),
+		}, nil, nil, nil, func(ctx context.Context, _ any, input any) (string, any) {
+			if sleep {
+				select {
+				case <-handoff(uidOf(input)):
+				case <-release:
+				}
+			}
+			return handler(ctx, input)
+		})
 	return schema.NewCallableSchema(
+		awaitStep, handStep,
 		schema.NewCallableStep[any]("pat", patIn, outputs(), nil, patHandler),
 		schema.NewCallableStep[any]("opt", optIn, outputs(), nil, optHandler),
 		schema.NewCallableStep[any]("bulk", in(), outputs(), nil, handler),
@@ -613,6 +713,45 @@ func atpxPatternSpec(idx int, rnd *rand.Rand, seed int64) *atpxSpec {
 		}
 		sp.Calls = append(sp.Calls, atpxCall{RunID: run, Step: "pat",
 			V: hx.StrAny([2]*hx.Val{hx.Str("uid"), hx.Str(run)}, [2]*hx.Val{hx.Str("word"), hx.Str(word)})})
+	}
+	return sp
+}
+
+// atpxAwaitSpec: steps released by a signal addressed by its key; doubled and late hand-overs
+// followed by more work.
+func atpxAwaitSpec(idx int, rnd *rand.Rand, seed int64) *atpxSpec {
+	sp := &atpxSpec{Idx: idx, Stream: "await", Bulk: true, Pattern: "rounds", Transport: []string{"pipe", "chunked", "split"}[rnd.Intn(3)], Seed: seed, CountMode: "atleast"}
+	n := 0
+	mk := func(step string, late ...atpxLateSignal) int {
+		run := fmt.Sprintf("a%d-%d", idx, n)
+		n++
+		sp.Calls = append(sp.Calls, atpxCall{RunID: run, Step: step, V: atpxBulkInput(run, rnd.Intn(1500), 0), Late: late})
+		return len(sp.Calls) - 1
+	}
+	at := func(id string, ms int) atpxLateSignal { return atpxLateSignal{ID: id, DelayUs: ms*1000 + rnd.Intn(2000)} }
+	for r := 2 + rnd.Intn(3); r > 0; r-- {
+		switch rnd.Intn(3) {
+		case 0: // steps that wait for the signal registered as "go-key", some next to plain calls
+			var round []int
+			for k := 1 + rnd.Intn(3); k > 0; k-- {
+				round = append(round, mk("await", at("go-key", 4)))
+			}
+			if rnd.Intn(2) == 0 {
+				round = append(round, mk("bulk"))
+			}
+			sp.Rounds = append(sp.Rounds, round)
+		case 1: // the hand-over sent twice, then more work
+			sp.Rounds = append(sp.Rounds, []int{mk("hand", at("hand", 4), at("hand", 8))})
+			sp.Rounds = append(sp.Rounds, []int{mk("bulk")})
+			sp.Rounds = append(sp.Rounds, []int{mk("await", at("go-key", 4)), mk("bulk"), mk("opt")})
+		default: // a hand-over after the step has ended (it ends on its first one), then a burst
+			sp.Rounds = append(sp.Rounds, []int{mk("hand", at("hand", 3), at("hand", 30))})
+			var burst []int
+			for k := 2 + rnd.Intn(3); k > 0; k-- {
+				burst = append(burst, mk([]string{"bulk", "opt"}[rnd.Intn(2)]))
+			}
+			sp.Rounds = append(sp.Rounds, burst)
+		}
 	}
 	return sp
 }
@@ -870,6 +1009,15 @@ func atpxRunSession(sp *atpxSpec, timeout time.Duration) (out atpxSessionResult)
 		}
 	}
 	find := func(format string, args ...any) { out.findings = append(out.findings, fmt.Sprintf(format, args...)) }
+	sp.release = make(chan struct{})
+	released := false
+	releaseAll := func() {
+		if !released {
+			released = true
+			close(sp.release)
+		}
+	}
+	defer releaseAll()
 	ref := sp.buildRef()
 	expected := make([]atpxExpect, len(calls))
 	unsent := make([]bool, len(calls))
@@ -982,6 +1130,22 @@ func atpxRunSession(sp *atpxSpec, timeout time.Duration) (out atpxSessionResult)
 				toStep = make(chan schema.Input, 1)
 				toStep <- schema.Input{RunID: c.RunID, ID: "sig", InputData: map[string]any{"note": "queued before Execute"}}
 			}
+			if len(c.Late) > 0 {
+				toStep = make(chan schema.Input, len(c.Late))
+				uid := ""
+				if m, ok := c.Input.(map[string]any); ok {
+					uid, _ = m["uid"].(string)
+				}
+				go func() {
+					begin := time.Now()
+					for _, ls := range c.Late {
+						if d := time.Duration(ls.DelayUs)*time.Microsecond - time.Since(begin); d > 0 {
+							time.Sleep(d)
+						}
+						toStep <- schema.Input{RunID: c.RunID, ID: ls.ID, InputData: map[string]any{"uid": uid}}
+					}
+				}()
+			}
 			if toStep != nil {
 				done <- cli.Execute(schema.Input{RunID: c.RunID, ID: c.Step, InputData: c.Input}, toStep, nil)
 			} else {
@@ -1075,6 +1239,7 @@ func atpxRunSession(sp *atpxSpec, timeout time.Duration) (out atpxSessionResult)
 	// signal that arrived late) would otherwise wait for a reader on an unbuffered pipe until the
 	// server's own 60 s send timeout.
 	go func() { _, _ = io.Copy(io.Discard, s2cR) }()
+	releaseAll() // what still waits inside the plugin (a hand-over nobody takes) ends now
 	failing := 0
 	for i := 0; i < stopAt; i++ {
 		if expected[i].Err && !unsent[i] {
@@ -1382,6 +1547,13 @@ func atpxCmd(a Args) {
 	for i := 0; i < nStepID; i++ {
 		jobs = append(jobs, atpxStepIDSpec(base+nRaw+nBlank+nPat+i, brnd, a.Seed*9000067+int64(i)))
 	}
+	nAwait := 24
+	if thorough {
+		nAwait = 300
+	}
+	for i := 0; i < nAwait; i++ {
+		jobs = append(jobs, atpxAwaitSpec(base+nRaw+nBlank+nPat+nStepID+i, brnd, a.Seed*9500093+int64(i)))
+	}
 	for i := 0; i < nPat; i++ {
 		jobs = append(jobs, atpxPatternSpec(base+nRaw+nBlank+i, brnd, a.Seed*8000051+int64(i)))
 	}
@@ -1404,7 +1576,7 @@ func atpxCmd(a Args) {
 			if j.Stream == "bulk" {
 				timeout = 5 * time.Second
 			}
-			if j.Stream == "dup" || j.Stream == "signal" || j.Stream == "blank" || j.Stream == "rawinput" || j.Stream == "pattern" || j.Stream == "stepid" {
+			if j.Stream == "dup" || j.Stream == "signal" || j.Stream == "blank" || j.Stream == "rawinput" || j.Stream == "pattern" || j.Stream == "stepid" || j.Stream == "await" {
 				timeout = 4 * time.Second
 			}
 			results[ji] = atpxRunSession(j, timeout)
@@ -1430,7 +1602,7 @@ func atpxCmd(a Args) {
 		if j.Stream == "bulk" {
 			s.stats["bulk:executes"] += r.calls
 			s.stats["bulk:rounds"] += len(j.Rounds)
-		} else if j.Stream == "rawinput" || j.Stream == "blank" || j.Stream == "pattern" || j.Stream == "stepid" {
+		} else if j.Stream == "rawinput" || j.Stream == "blank" || j.Stream == "pattern" || j.Stream == "stepid" || j.Stream == "await" {
 			s.stats[j.Stream+":executes"] += r.calls
 		} else if j.Stream == "dup" {
 			s.stats["dup:executes"] += r.calls
